@@ -370,6 +370,19 @@ def _single_one(c, name, p, out):
         if first["exc"] is not None:
             out.append(dict(problem=name, error="first leg raised %r" % (first["exc"],)))
             return
+        if c.get("ck_abnormal"):
+            # a first leg that ends on an abnormal line-search termination (success False): short line searches
+            first = None
+            for ml in (1, 2):
+                for mi in (50,):
+                    cand = run_once(p, dict(maxiter=mi, maxfun=10 ** 6, maxls=ml, maxcor=c.get("maxcor", 10), ftol=0.0, gtol=0.0), L=L)
+                    if cand["exc"] is None and cand["res"].message == MSG["ABNORMAL"]:
+                        first = cand
+                        break
+                if first is not None:
+                    break
+            if first is None:
+                return
         ck_obj = first["res"]
         ck = dict(nit=int(ck_obj.nit), nfev=int(ck_obj.nfev), njev=int(ck_obj.njev), fun=float(ck_obj.fun))
         history = [(q.copy(), g.copy()) for q, g in L.gcalls]
@@ -396,16 +409,19 @@ def _single_one(c, name, p, out):
             if c.get("jac_mode"):
                 jx = dict(jac=None if c["jac_mode"] == "none" else c["jac_mode"])
             ck_before = snap(ck_obj) if ck_obj is not None else None
+            ck_rep = (ck_obj.message, bool(ck_obj.success), ck_obj.status) if ck_obj is not None else None
             x0_in = ck_obj.x if ck_obj is not None else None
             if c.get("x0_dtype") and ck_obj is None:
                 # a start vector of another floating-point type (feasible: rounded into the box)
                 x0_in = np.clip(np.asarray(p["x0"], float), p["bounds"][:, 0], p["bounds"][:, 1]).astype(c["x0_dtype"])
                 x0_in = np.where(x0_in < p["bounds"][:, 0], np.nextafter(x0_in, np.array(np.inf, x0_in.dtype)), x0_in)
                 x0_in = np.where(x0_in > p["bounds"][:, 1], np.nextafter(x0_in, np.array(-np.inf, x0_in.dtype)), x0_in).astype(c["x0_dtype"])
-            rec = run_once(p, dict(cfg), L=L2, checkpoint=copy.deepcopy(ck_obj) if ck_obj is not None else None,
+            rec = run_once(p, dict(cfg), L=L2, checkpoint=ck_obj,      # the object itself, the way a user restarts
                            x0=x0_in, callback_kind=cbk, extra=jx)
             bad = audit(rec, p, c["maxiter"], c["maxfun"], gtol, ftarget=ft, ck=ck, ftarget_callable=c.get("ftarget_kind") == "callable",
                         gtol_callable=c.get("gtol_kind") == "callable", maxcor=cfg["maxcor"], history=history, callable_grad=not c.get("jac_mode"))
+            if ck_rep is not None and ck_rep != (ck_obj.message, bool(ck_obj.success), ck_obj.status):
+                bad["C05.earlier_result_of_the_chain_untouched"] = "the restart rewrote the termination report of the result it was started from: %r -> %r" % (ck_rep, (ck_obj.message, bool(ck_obj.success), ck_obj.status))
             if ck_before is not None and _same_state(ck_before, snap(ck_obj), fields=("x", "fun", "jac", "nfev", "njev", "nit", "sk", "yk"), tol=0.0):
                 # the user restarted with x0=result.x: the earlier result of the chain must still describe its own point
                 bad["C05.earlier_result_of_the_chain_untouched"] = "the restart modified the result it was started from: %s" % ("; ".join(_same_state(ck_before, snap(ck_obj), fields=("x", "fun", "jac", "nfev", "njev", "nit", "sk", "yk"), tol=0.0))[:300])
@@ -443,7 +459,15 @@ def scenario_restart(c):
     K, k = c["K"], c["k"]
     mc, mc2 = c.get("maxcor", 10), c.get("maxcor_restart", c.get("maxcor", 10))
     base = dict(maxfun=10 ** 6, maxls=c.get("maxls", 20), ftol=0.0, gtol=c.get("gtol", 1e-12))
-    for name, p in problems().items():
+    todo = [(name, p, base, K, k) for name, p in problems().items()]
+    if c.get("ls_failures"):
+        # runs in which line searches fail, succeed and fail again (maxls=1 on an oscillating objective): the reboot
+        # logic between two failures must not depend on anything a checkpoint does not carry
+        import lbfgsb as _l
+        g4 = dict(f=_l.griewank, g=_l.griewank_grad, x0=np.array([1.74, 0.34, -1.67, 0.35]), bounds=np.array([[-np.inf, np.inf]] * 4))
+        for kk in range(1, 8):
+            todo.append(("griew4", g4, dict(base, maxls=1), 15, kk))
+    for name, p, base, K, k in todo:
         bad = {}
         U = run_once(p, dict(base, maxiter=K, maxcor=mc))
         A = run_once(p, dict(base, maxiter=k, maxcor=mc))
@@ -621,7 +645,9 @@ def scenario_update(c):
                 w = np.linspace(1.0, 2.0, p["x0"].size)
                 f2 = lambda x: float(p["f"](x)) - 4.0 * float(w.dot(x)) ** 2 + 0.5 * float(x.dot(x))
                 g2 = lambda x: np.asarray(p["g"](x), float) - 8.0 * float(w.dot(x)) * w + x
-            for ftol in (0.0, 1e10):
+            for ftol in (0.0, 1e10, 1e-300):
+                # (1e-300: the update function hands back f0_old = the new value at the switch, so that the relative
+                # reduction test ends the run exactly there, before the matrices are refreshed)
                 state = dict(calls=0, switched=False, seen=None)
 
                 def fun(x):
@@ -658,7 +684,7 @@ def scenario_update(c):
                     else:
                         newG = deque(g2(np.array(xx)) for xx in X)
                     state["seen"] = dict(X=[np.array(xx, float).copy() for xx in X], G=[g.copy() for g in newG], x=np.array(x, float).copy(), f=f2(x), grad=g2(x))
-                    return f2(x), f0_old, g2(x), newG
+                    return f2(x), (f2(x) if ftol == 1e-300 else f0_old), g2(x), newG
                 pp = dict(p, f=fun, g=jac)
                 R = run_once(pp, dict(maxiter=at + 1 if ftol == 0.0 else K, maxfun=10 ** 6, maxls=20, maxcor=mc, ftol=ftol, gtol=1e-12, **epskw), extra=dict(update_fun_def=upd))
                 if R["exc"] is not None:
@@ -675,6 +701,11 @@ def scenario_update(c):
                         bad.setdefault("C13.retained_pairs_satisfy_curvature", "%s switch at update %d (ftol=%g): result carries a pair with s.y=%s <= eps*y.y" % (kind, at, ftol, sy.tolist()))
                         if np.any(sy <= 0):
                             bad.setdefault("C18.pairs_have_positive_curvature", "%s switch at update %d (ftol=%g): result.hess_inv carries a pair with s.y=%s <= 0" % (kind, at, ftol, sy.tolist()))
+                if ftol != 0.0 and state["calls"] == at + 1 and sk.size:
+                    # a stop test ended the run right after the rewrite: the result is built from the rewritten history
+                    pts_ = [(a_, b_) for a_, b_ in zip(seen["X"], seen["G"])] + [(seen["x"], seen["grad"])]
+                    if not chain_ok(sk, yk, pts_):
+                        bad.setdefault("C13.pairs_are_differences_of_rewritten_gradients", "%s switch at update %d, run stopped by ftol right after it: the result pairs are not differences of the rewritten gradients at stored points (yk=%s)" % (kind, at, yk.tolist()))
                 if ftol != 0.0 or R["res"].nit <= at - 0:
                     continue
                 # reference: restart on the new objective from the checkpoint holding the rewritten, filtered history
@@ -1036,7 +1067,7 @@ def scenario_fault(c):
     out = []
     K = c.get("K", 3)
     kinds = [c["fault_kind"]] if c.get("fault_kind") else ["fun", "jac", "callback", "ftarget", "gtol", "scaler", "update"]
-    etypes = [TypeError, IndexError, ValueError, AssertionError, ZeroDivisionError, KeyError, _UserError]
+    etypes = [TypeError, IndexError, ValueError, AssertionError, ZeroDivisionError, KeyError, StopIteration, ArithmeticError, LookupError, _UserError]
     flds = ("x", "fun", "jac", "nfev", "njev", "nit", "sk", "yk", "message", "success")
     err_state0 = np.geterr()
     for name in ("qp2", "rosen2"):
